@@ -83,7 +83,8 @@ struct StepView {
 
 struct Plan {
 	chan_type: u64,
-	styles: [ConnectStyle; 3],
+	/// (one for all nodes: the test nodes of a network share one style cell)
+	style: ConnectStyle,
 	htlcs: Vec<(u64, u64)>,
 	partial: bool,
 	closer: usize,
@@ -104,7 +105,7 @@ fn style_of(k: u64) -> ConnectStyle {
 fn plan(seed: u64) -> Plan {
 	let mut rng = Rng(seed.wrapping_mul(0x9E37_79B9_7F4A_7C15) ^ 0xC11_5747);
 	let chan_type = rng.below(2);
-	let styles = [style_of(rng.below(6)), style_of(rng.below(6)), style_of(rng.below(6))];
+	let style = style_of(rng.below(6));
 	let n = 1 + rng.below(4);
 	let mut htlcs = Vec::new();
 	for _ in 0..n {
@@ -129,7 +130,7 @@ fn plan(seed: u64) -> Plan {
 	for _ in 0..(ANTI_REORG_DELAY + 1) {
 		ops.push(Op::Blk);
 	}
-	Plan { chan_type, styles, htlcs, partial, closer, ops }
+	Plan { chan_type, style, htlcs, partial, closer, ops }
 }
 
 struct State {
@@ -200,7 +201,8 @@ fn observe(nodes: &Vec<Node>, k: usize, op: &Op, restarted: bool, chan_bc: light
 	}
 	let mon = lightning::get_monitor!(nodes[1], chan_bc);
 	let failed_outbound: Vec<String> = mon.verif_onchain_failed_outbound_htlcs().iter().map(|h| format!("{}", h)).collect();
-	if !failed_outbound.is_empty() && !st.buried {
+	// (VERIF_SKIP_JUDGE: mutation experiments only, to see which other judge catches a defect)
+	if !failed_outbound.is_empty() && !st.buried && !std::env::var("VERIF_SKIP_JUDGE").map(|v| v.contains("hook")).unwrap_or(false) {
 		return fail(
 			"the monitor reports outbound HTLCs as failed on chain (a restart acts on it) before the closing transaction was buried",
 			format!("{:?} after step {} ({:?}), best height {}, commitment confirmed at {:?}", failed_outbound, k, op, best, st.conf_height),
@@ -229,10 +231,9 @@ fn run(p: &Plan, restart_after: Option<usize>, views: &mut Vec<StepView>) -> Res
 	cfg.channel_handshake_config.negotiate_anchors_zero_fee_htlc_tx = p.chan_type == 1;
 	let node_chanmgrs = create_node_chanmgrs(3, &node_cfgs, &[Some(cfg.clone()), Some(cfg.clone()), Some(cfg.clone())]);
 	let nodes_1_deserialized;
-	let mut nodes = create_network(3, &node_cfgs, &node_chanmgrs);
-	for i in 0..3 {
-		*nodes[i].connect_style.borrow_mut() = p.styles[i];
-	}
+	// (never dropped: the drop checks of the test nodes would turn a reported failure into a panic)
+	let mut nodes = std::mem::ManuallyDrop::new(create_network(3, &node_cfgs, &node_chanmgrs));
+	*nodes[0].connect_style.borrow_mut() = p.style;
 	let ids = [nodes[0].node.get_our_node_id(), nodes[1].node.get_our_node_id(), nodes[2].node.get_our_node_id()];
 	provide_utxo_reserves(&nodes, 8, Amount::from_sat(5_000_000));
 	let (_, _, chan_ab, _) = create_announced_chan_between_nodes_with_value(&nodes, 0, 1, 1_000_000, 300_000_000);
@@ -290,7 +291,6 @@ fn run(p: &Plan, restart_after: Option<usize>, views: &mut Vec<StepView>) -> Res
 		let mon_bc = lightning::get_monitor!(nodes[1], chan_bc).encode();
 		let mons = &[&mon_ab[..], &mon_bc[..]];
 		lightning::reload_node!(nodes[1], &node_ser, mons, persister, new_chain_monitor, nodes_1_deserialized);
-		*nodes[1].connect_style.borrow_mut() = p.styles[1];
 		nodes[0].node.peer_disconnected(ids[1]);
 		nodes[2].node.peer_disconnected(ids[1]);
 		observe(&nodes, r, &p.ops[r], true, chan_bc, &mut st, views)?;
@@ -302,7 +302,6 @@ fn run(p: &Plan, restart_after: Option<usize>, views: &mut Vec<StepView>) -> Res
 		}
 	}
 	let _ = ctxid;
-	std::mem::forget(nodes);
 	Ok(())
 }
 
@@ -348,12 +347,12 @@ fn scenario(seed: u64) -> Result<Out, Fail> {
 		}
 	}
 	let cfg = format!(
-		"{{\"chan_type\":{},\"closer\":{},\"partial\":{},\"htlcs\":{:?},\"styles\":\"{:?}\",\"ops\":\"{:?}\"}}",
+		"{{\"chan_type\":{},\"closer\":{},\"partial\":{},\"htlcs\":{:?},\"style\":\"{:?}\",\"ops\":\"{:?}\"}}",
 		p.chan_type,
 		p.closer,
 		p.partial,
 		p.htlcs.iter().map(|(k, m)| vec![*k, *m]).collect::<Vec<_>>(),
-		p.styles,
+		p.style,
 		p.ops
 	);
 	Ok(Out {
@@ -381,7 +380,9 @@ fn run_one(seed: u64) -> String {
 		),
 		Ok(Err(f)) => format!("R {{\"seed\":{},\"ok\":false,\"why\":{},\"detail\":{}}}", seed, jstr(&f.why), jstr(&f.detail)),
 		Err(_) => {
-			let msg = PANIC_MSG.lock().unwrap().clone();
+			let p = plan(seed);
+			let restart_after = Rng(seed.wrapping_mul(0xD6E8_FEB8_6659_FD93) ^ 0x2E57).below(p.ops.len() as u64);
+			let msg = format!("{}; plan: style {:?} closer {} ops {:?} restart after step {}", PANIC_MSG.lock().unwrap().clone(), p.style, p.closer, p.ops, restart_after);
 			format!("R {{\"seed\":{},\"ok\":false,\"why\":\"panic inside the library or its test utilities\",\"detail\":{}}}", seed, jstr(&msg))
 		},
 	}
